@@ -1,6 +1,143 @@
 -------------------------------- MODULE JC12 --------------------------------
-(* C12 — contract of the recorded events of this property (stub).           *)
+(* C12 — NonZero and Odd wrappers can never hold an invalid value.          *)
+(* Every event is one public way of producing a NonZero<T> / Odd<T>;        *)
+(* w = "nz" | "odd" names the wrapper, bits the width of T; values of Int   *)
+(* are two's-complement bit patterns (zero / odd are properties of the      *)
+(* pattern).  The invariant  Valid(w, v)  is demanded of every produced     *)
+(* value v, together with the value the producer's documentation states.    *)
+(*                                                                          *)
+(* "mk"     x -> v : from the value x.  Valid x: ok, v = x (vp = bits for   *)
+(*          boxed results).  Invalid x: exactly the documented failure z    *)
+(*          ("none" for the CtOption constructors, "panic" for new_unwrap / *)
+(*          expect / unwrap).                                               *)
+(* "mapobs" CtOption<W>::map: the closure observes x when valid, else       *)
+(*          W::default() (documented by subtle) — a valid value either way. *)
+(* "const"  ONE, MAX, Default.                                              *)
+(* "select" conditional selection / assignment / swap between valid values. *)
+(* "random" xs = samples of the plain type drawn from the same scripted     *)
+(*          stream.  NonZero: rejection sampling (documented): the first    *)
+(*          non-zero sample.  Odd: an odd value that is some sample with    *)
+(*          its low bit forced.  Stream exhausted first: the failure z      *)
+(*          ("err"; "any" = err or panic where the doc is silent).          *)
+(* "decode" enc read in the stated byte order en ("be" | "le") as raw bytes *)
+(*          ("bytes", "array") or hex digits ("hex"; malformed or wrongly   *)
+(*          sized hex panics, as documented).                               *)
+(* "serde"  x = what the plain type deserialises to from the same encoding  *)
+(*          (absent if it fails): ok v = x iff x exists and is valid, else  *)
+(*          an error.                                                       *)
+(* "abs"    NonZero<Int>::abs_sign -> non-zero magnitude and sign.          *)
+(* "widen"  NonZero<BoxedUint>::widen(pr): value kept, precision pr rounded *)
+(*          up; panics (documented) when pr is below the current precision. *)
 EXTENDS BigNat
 
-JudgeC12(e, rg) == FALSE
+LOCAL Has(e, f) == f \in DOMAIN e
+
+LOCAL Valid(w, v) == IF w = "nz" THEN v # Zero ELSE IsOdd(v)
+
+LOCAL Up64(p) == 64 * ((p + 63) \div 64)
+
+LOCAL JMk(e) ==
+  IF Valid(e.w, e.x)
+    THEN /\ e.k = "ok"
+         /\ e.v = e.x
+         /\ Valid(e.w, e.v)
+         /\ Has(e, "vp") => e.vp = e.bits
+    ELSE /\ e.z \in {"none", "panic"}
+         /\ e.k = e.z
+
+LOCAL JMapObs(e) ==
+  /\ e.k = "ok"
+  /\ Valid(e.w, e.v)
+  /\ IF Valid(e.w, e.x) THEN e.v = e.x /\ e.s = 1
+                        ELSE e.v = e.dflt /\ e.s = 0
+
+LOCAL MaxOf(e) == IF e.sg = 1 THEN Max2k(e.bits - 1) ELSE Max2k(e.bits)
+
+LOCAL JConst(e) ==
+  /\ e.k = "ok"
+  /\ Valid(e.w, e.v)
+  /\ CASE e.name = "one"     -> e.v = One
+       [] e.name = "max"     -> e.v = MaxOf(e)
+       [] e.name = "default" -> IF e.w = "nz" THEN e.v = One            \* hand-written Default = ONE
+                                ELSE e.v = One \/ e.v = MaxOf(e)        \* any canonical valid constant
+       [] OTHER -> FALSE
+
+LOCAL JSelect(e) ==
+  /\ e.k = "ok"
+  /\ Valid(e.w, e.a) /\ Valid(e.w, e.b)          \* sanity of the recorder
+  /\ e.v = (IF e.c = 1 THEN e.b ELSE e.a)
+  /\ Valid(e.w, e.v)
+  /\ Has(e, "v2") => /\ e.v2 = (IF e.c = 1 THEN e.a ELSE e.b)
+                     /\ Valid(e.w, e.v2)
+
+LOCAL RFail(e) == IF e.z = "any" THEN e.k \in {"err", "panic"} ELSE e.k = e.z
+
+LOCAL JRandom(e) ==
+  LET n == Len(e.xs) IN
+  IF e.w = "nz"
+    THEN LET idx == {i \in 1..n : e.xs[i] # Zero} IN
+         IF idx # {}
+           THEN /\ e.k = "ok"
+                /\ e.v = e.xs[CHOOSE i \in idx : \A j \in idx : i <= j]
+                /\ Valid("nz", e.v)
+           ELSE RFail(e)
+    ELSE IF n > 0
+           THEN /\ e.k = "ok"
+                /\ Valid("odd", e.v)
+                /\ \E i \in 1..n : e.v = Or(e.xs[i], One)
+                /\ Has(e, "vp") => e.vp = e.xp
+           ELSE RFail(e)
+
+LOCAL HexNib(c) == IF c >= 48 /\ c <= 57 THEN c - 48
+                   ELSE IF c >= 97 /\ c <= 102 THEN c - 87
+                   ELSE IF c >= 65 /\ c <= 70 THEN c - 55
+                   ELSE 99
+
+(* the value an encoding denotes in the stated byte order: [ok, x] *)
+LOCAL Decoded(e) ==
+  IF e.fmt = "hex"
+    THEN LET nb == [i \in 1..Len(e.enc) |-> HexNib(e.enc[i])]
+             wf == Len(e.enc) * 4 = e.bits /\ \A i \in 1..Len(e.enc) : nb[i] < 16
+         IN IF ~wf THEN [ok |-> FALSE, x |-> Zero]
+            ELSE [ok |-> TRUE,
+                  x  |-> IF e.en = "be" THEN FromDigits(nb, 16)
+                         ELSE FromLE([i \in 1..(Len(e.enc) \div 2) |-> 16 * nb[2 * i - 1] + nb[2 * i]])]
+    ELSE [ok |-> Len(e.enc) * 8 = e.bits,
+          x  |-> IF e.en = "be" THEN FromBE(e.enc) ELSE FromLE(e.enc)]
+
+LOCAL JDecode(e) ==
+  LET d == Decoded(e) IN
+  IF ~d.ok THEN e.fmt = "hex" /\ e.k = "panic"   \* malformed / wrongly sized hex (documented panic)
+  ELSE IF Valid(e.w, d.x)
+    THEN e.k = "ok" /\ e.v = d.x /\ Valid(e.w, e.v)
+    ELSE e.z \in {"none", "panic"} /\ e.k = e.z
+
+LOCAL JSerde(e) ==
+  IF Has(e, "x") /\ Valid(e.w, e.x)
+    THEN e.k = "ok" /\ e.v = e.x /\ Valid(e.w, e.v)
+    ELSE e.k = "err"
+
+LOCAL JAbs(e) ==
+  LET z == SVal(e.x, e.bits) IN
+  /\ e.k = "ok"
+  /\ e.v = z.mag
+  /\ e.v # Zero
+  /\ e.s = (IF z.neg THEN 1 ELSE 0)
+
+LOCAL JWiden(e) ==
+  IF e.pr >= e.bits
+    THEN e.k = "ok" /\ e.v = e.x /\ e.v # Zero /\ e.vp = Up64(e.pr)
+    ELSE e.k = "panic"
+
+JudgeC12(e, rg) ==
+  CASE e.op = "mk"     -> JMk(e)
+    [] e.op = "mapobs" -> JMapObs(e)
+    [] e.op = "const"  -> JConst(e)
+    [] e.op = "select" -> JSelect(e)
+    [] e.op = "random" -> JRandom(e)
+    [] e.op = "decode" -> JDecode(e)
+    [] e.op = "serde"  -> JSerde(e)
+    [] e.op = "abs"    -> JAbs(e)
+    [] e.op = "widen"  -> JWiden(e)
+    [] OTHER -> FALSE
 =============================================================================
